@@ -101,7 +101,7 @@ def mk_lifetime(case, dims):
     return cls(mean=mk_param(dims, lt["mean"]), std=mk_param(dims, lt["std"]), **kw)
 
 
-def mk_stock(case):
+def mk_stock(case, lifetime_model=None):
     import flodym as fd
     tl = case.get("time_letter", "t")
     dims = mk_dims(case["grid"], case["extra"], tl)
@@ -114,7 +114,7 @@ def mk_stock(case):
         out = np.array([float(v) for v in case["outflow"]]).reshape(shp)
         return fd.SimpleFlowDrivenStock(dims=dims, inflow=fd.StockArray(dims=dims, values=drv),
                                         outflow=fd.StockArray(dims=dims, values=out), name="s", time_letter=tl)
-    lm = mk_lifetime(case, dims)
+    lm = lifetime_model if lifetime_model is not None else mk_lifetime(case, dims)
     if k == "idsm":
         return fd.InflowDrivenDSM(dims=dims, inflow=fd.StockArray(dims=dims, values=drv), lifetime_model=lm, name="s", time_letter=tl)
     return fd.StockDrivenDSM(dims=dims, stock=fd.StockArray(dims=dims, values=drv), lifetime_model=lm,
@@ -141,10 +141,44 @@ def observe_stock(st, snap=True):
     return o
 
 
+def computed_stock(case):
+    """the case's stock, computed — directly, or (case["history"]) as the last step of a short history on the objects involved:
+    'twice'       compute() called twice in a row
+    'other_first' the same object computed with another (non-zero) driver first, then given the case's driver
+    'shared_lm'   another stock computed first with the SAME lifetime-model object
+    The results are those of a fresh computation in every case (that is what the property under test quantifies over:
+    'after compute()', whatever happened to the objects before)."""
+    h = case.get("history")
+    if h == "other_first":
+        other = [Fraction(v) + 3 for v in case["driver"]]
+        st = mk_stock(dict(case, driver=other))
+        st.compute()
+        drv = np.array([float(Fraction(v)) for v in case["driver"]]).reshape(st.stock.values.shape)
+        if case["cls"] == "sdsm":
+            st.stock.values[...] = drv
+        else:
+            st.inflow.values[...] = drv
+        st.compute()
+        return st
+    if h == "shared_lm" and case["cls"] in ("idsm", "sdsm"):
+        first = mk_stock(dict(case, driver=[Fraction(v) * 2 + 1 for v in case["driver"]]))
+        first.compute()
+        st = mk_stock(case, lifetime_model=first.lifetime_model)
+        st.compute()
+        return st
+    st = mk_stock(case)
+    st.compute()
+    if h == "twice":
+        st.compute()
+    return st
+
+
+HISTORIES = (None, "twice", "other_first", "shared_lm")
+
+
 def run_stock(case, snap=True):
     try:
-        st = mk_stock(case)
-        st.compute()
+        st = computed_stock(case)
     except Exception as e:  # noqa
         return dict(kind="err", exc=type(e).__name__, msg=str(e)[:200])
     return dict(kind="ok", value=observe_stock(st, snap))
